@@ -203,8 +203,8 @@ def ensure_target_current(config, root=None, locked=False):
 
 def load(config, root=None):
     p = facts_path(config, root)
-    with open(p) as fh:
-        d = json.load(fh)
+    from . import canon
+    d, _moved = canon.load_json(p)      # items moved to another module are mapped back to the def paths the rule packs use
     if d.get("crate") != "specs" or d.get("config") != config:
         raise InfraError("fact file %s is not specs/%s" % (p, config))
     if len(d["bodies"]) < BODY_FLOOR[config]:
